@@ -491,7 +491,15 @@ func runC20(t *rapid.T) {
 			ee.Close()
 		})
 		database, _ := db.NewInMemoryDB()
+		// some keys are in the store already, so that deletions are staged markers and listings merge both sources
+		for v := 0; v < 2; v++ {
+			for i := 0; i < 6; i += 2 {
+				database.Set([]byte{10, byte(v), byte(i)}, []byte{0xee, byte(i)})
+			}
+		}
 		root := diffdb.New(database, []byte{10})
+		limits := []int{-1, 1, 3}
+		lim := [2]int{limits[simkit.Int(t, "viewlimit0", 0, 2)], limits[simkit.Int(t, "viewlimit1", 0, 2)]}
 		for v := 0; v < 2; v++ {
 			v := v
 			view := root.WithPrefix([]byte{byte(v)})
@@ -499,7 +507,9 @@ func runC20(t *rapid.T) {
 				for i := 0; i < 4; i++ {
 					view.Set([]byte{byte(i)}, []byte{byte(v), byte(i)})
 					_, _ = view.Get([]byte{byte(i)})
-					_ = view.Range([]byte{0}, []byte{9}, -1, false)
+					_ = view.Range([]byte{0}, []byte{9}, lim[v], false)
+					view.Del([]byte{byte((i * 2) % 6)})
+					_ = view.Iterate([]byte{}, lim[v], i%2 == 1)
 					if i == 2 {
 						id := view.Snapshot()
 						_ = view.RestoreSnapshot(id)
